@@ -29,7 +29,7 @@ U_PORT, D_PORT = 61000, 62000
 CHAIN_S = 300            # longest timeout chain of one attempt: reply 30 + file connection 60 + data 180 + slack
 SIZES = [0, 1, 127, 128, 129, 8191, 8192, 8193, 3 * 8192 + 5]
 
-_SRC_ALL = bytes((i * 7 + (i >> 8) * 13 + 3) % 251 for i in range(4 * 8192))
+_SRC_ALL = bytes((i * 7 + (i >> 8) * 13 + 3) % 251 for i in range(16 * 8192))
 _JUNK = bytes(0xEE for _ in range(4 * 8192))
 
 
@@ -41,15 +41,19 @@ def source(size: int) -> bytes:
 # schedules
 # ---------------------------------------------------------------------------
 
-def sched(mode='real2', size=0, k0=0, b0=0, resume=False, ulimit=0, dlimit=0, seg='none', fdelay=0.0,
+def sched(mode='real2', size=0, k0=0, b0=0, resume=False, ulimit=0, dlimit=0, seg='none', fdelay=0.0, ddelay=0.0,
           faults=(), script=(), retry=True, src='grid'):
     """faults: tuple of (attempt, kind, ...):
          (n, 'cut', mode, phase, k)   phase: 'data' (after k data bytes) | 'ticket' (after k of 4 ticket bytes)
                                        | 'offset' (after k of the 8 offset bytes)
          (n, 'lose_request') / (n, 'lose_reply')      the n-th such frame is lost with its connection
+         (n, 'ufail', k)              the uploader's end of the n-th file connection breaks after k data bytes
+                                      (its next write fails; what is in flight still arrives, then EOF)
+         (n, 'hold_upfailed', secs)   the n-th PeerUploadFailed frame is held back secs seconds (overtaken)
+       ddelay: delay of the data phase of the file connection (bytes and close from the uploader)
        script (scripted party, per attempt): see ScriptedUploader / ScriptedDownloader."""
     return dict(mode=mode, size=size, k0=k0, b0=b0, resume=bool(resume or k0 or b0), ulimit=ulimit, dlimit=dlimit,
-                seg=seg, fdelay=fdelay, faults=tuple(tuple(f) for f in faults), script=tuple(tuple(s) for s in script),
+                seg=seg, fdelay=fdelay, ddelay=ddelay, faults=tuple(tuple(f) for f in faults), script=tuple(tuple(s) for s in script),
                 retry=retry, src=src)
 
 
@@ -90,6 +94,7 @@ class _LinkInfo:
         self.d_bytes = bytearray()  # bytes written by the acceptor (the offset)
         self.uoff = -1
         self.scripted_u = False
+        self.ufailed = False
 
 
 class Run:
@@ -99,7 +104,7 @@ class Run:
         self.events = []
         self.flink = None
         self.nflinks = 0
-        self.counts = dict(request=0, reply=0, queue=0)
+        self.counts = dict(request=0, reply=0, queue=0, upfailed=0)
         self.dt = None
         self.ut = None
         self.sd = None          # scripted downloader
@@ -111,6 +116,7 @@ class Run:
         self._keep = []
         self.finished = False
         self.progress = {'d': -1, 'u': -1}      # bytes_transfered of the last TransferProgressEvent snapshot
+        self.pending_holds = 0                  # held PeerUploadFailed frames not yet delivered
 
     # -- observation -----------------------------------------------------------
     def d_state(self):
@@ -147,7 +153,8 @@ class Run:
             uoff = fi.uoff
             sentok = sent == 0 or (uoff >= 0 and bytes(fi.u_data) == self.src[uoff:uoff + sent])
             lk = fi.link
-            is_open = not lk.dead and not lk.closed[1] and not (fi.scripted_u and lk.closed[0])
+            # the peer's end: alive and not closed by the downloader (the uploader's own close does not count)
+            is_open = not lk.dead and not lk.closed[1]
             fcs = 'open' if is_open else 'ended'
         return dict(dst=dst, ust=ust, len=len(data) if valid else -1,
                     pre=self.src.startswith(data), iden=data == self.src,
@@ -241,6 +248,15 @@ class Run:
                 skip = max(0, info.hdr + 4 - start)
                 if not lost_to_reset and len(data) > skip:
                     info.u_data += data[skip:]
+                if start >= info.hdr + 4 and self.s['ddelay'] and not link.delay[0]:
+                    link.delay[0] = self.s['ddelay']          # from the first data byte on (FIFO, the close too)
+                res = orig(side, data)
+                for f in self._faults_for(info.attempt, 'ufail'):
+                    if not info.ufailed and len(info.u_data) >= f[2] and start + len(data) > info.hdr + 4:
+                        info.ufailed = True
+                        link.writers[0].fail_writes = ConnectionResetError(104, 'Connection reset by peer')
+                        self.event('fault', kind='ufail')
+                return res
             else:
                 had = len(info.d_bytes)
                 info.d_bytes += data
@@ -260,6 +276,20 @@ class Run:
                 name = {40: 'request', 41: 'reply'}.get(code)
                 if code == 43:
                     self.counts['queue'] += 1
+                if code == 46:
+                    self.counts['upfailed'] += 1
+                    hold = self._faults_for(self.counts['upfailed'], 'hold_upfailed')
+                    if hold:
+                        self.event('fault', kind='hold_upfailed')
+
+                        self.pending_holds += 1
+
+                        def release(frame=frame):
+                            self.pending_holds -= 1
+                            self.event('fault', kind='release_upfailed')
+                            orig(side, frame)
+                        self.loop.call_later(hold[0][2], release)
+                        continue
                 if name:
                     self.counts[name] += 1
                     if self._faults_for(self.counts[name], 'lose_' + name):
@@ -389,11 +419,14 @@ class Run:
             return 'dcomplete' if all(x[0] in ('honest', 'fail_early', 'abandon', 'less_close', 'stall') for x in s['script']) \
                 and s['retry'] else 'any'
         if s['mode'] == 'scrD':
-            return 'ucomplete' if all(x[0] == 'ok' and x[2] == 'all' for x in s['script']) else 'any'
+            return 'ucomplete' if all(x[0] == 'ok' and (x[2] == 'all' or x[2][0] == 'slow_close') for x in s['script']) \
+                else 'any'
         return 'any'
 
     def _settled(self):
         d, u = self.d_state(), self.u_state()
+        if self.pending_holds:
+            return False
         if self.s['mode'] == 'scrD':
             return d in ('COMPLETE', 'FAILED', 'INCOMPLETE') and u in ('COMPLETE', 'FAILED') and self.sd.idle
         urs = (self.ut.fail_reason is not None) if self.ut is not None else (self.su.rsn if self.su else False)
@@ -590,7 +623,7 @@ class ScriptedUploader:
 class ScriptedDownloader:
     """Another client implementation on the downloading side.  script[i] = (kind, o, how):
        kind 'ok' (any offset o <= size) | 'bad' (o > size); how 'all' (read what remains, then close)
-       | ('early', k) close after k bytes."""
+       | ('early', k) close after k bytes | ('slow_close', secs) read what remains, close secs seconds later."""
 
     def __init__(self, run: Run, net, remote):
         from aioslsk.protocol import messages as M
@@ -658,6 +691,9 @@ class ScriptedDownloader:
             return
         self._set('DOWNLOADING')
         need = size - o
+        slow = how[1] if how != 'all' and how[0] == 'slow_close' else 0
+        if slow:
+            how = 'all'
         want = need if how == 'all' else min(how[1], max(0, need - 1))
         got = 0
         try:
@@ -669,6 +705,8 @@ class ScriptedDownloader:
                 got += len(data)
         except ConnectionError:
             pass
+        if slow:
+            await asyncio.sleep(slow)     # has everything, takes its time to close
         ep.close()
         if how == 'all' or need <= 0:
             ok = (o + got == size)
@@ -761,8 +799,27 @@ def grid(thorough: bool, rng):
         add(sched(size=size, k0=size // 2, b0=0, faults=[(1, 'cut', 'reset', 'data', 1)]))
     # H. a rate-limited uploader that has written everything but still waits for tokens when the
     #    connection is reset in the last chunk (the re-queue overtakes the end of the upload)
-    add(sched(size=3000, ulimit=1, faults=[(1, 'cut', 'reset', 'data', 2950)]))
-    add(sched(size=3 * 8192 + 5, ulimit=2, faults=[(1, 'cut', 'reset', 'data', 3 * 8192 + 1)]))
+    add(sched(size=3000, ulimit=1, faults=[(1, 'cut', 'reset', 'data', 2950)], src='grid!'))
+    add(sched(size=3 * 8192 + 5, ulimit=2, faults=[(1, 'cut', 'reset', 'data', 3 * 8192 + 1)], src='grid!'))
+    # I. the peer's close comes long after the uploader's last byte (> 60 s peer read timeout, towards the
+    #    180 s data timeout): slow network, rate-limited downloader, scripted downloader that delays its close
+    add(sched(size=3 * 8192 + 5, ddelay=70.0, src='grid!'))
+    add(sched(size=8193, ddelay=170.0, src='grid!'))
+    add(sched(size=100000, dlimit=1, src='grid!'))
+    add(sched(mode='scrD', size=8193, script=[('ok', 0, ('slow_close', 70))], src='grid!'))
+    add(sched(mode='scrD', size=8193, script=[('ok', 1, ('slow_close', 200))], src='grid!'))
+    add(sched(size=129, ulimit=16, ddelay=100.0, k0=1, b0=1))
+    # J. delivery orders of PeerUploadFailed against the file connection and the next attempt: held back until
+    #    the next attempt is DOWNLOADING; overtaking data that is still in flight (the uploader's end breaks)
+    add(sched(size=3 * 8192 + 5, ulimit=4, faults=[(1, 'cut', 'reset', 'data', 3000), (1, 'hold_upfailed', 1.0)], src='grid!'))
+    add(sched(size=3 * 8192 + 5, ulimit=4, faults=[(1, 'cut', 'reset', 'data', 3000), (1, 'hold_upfailed', 0.3)], src='grid!'))
+    add(sched(size=3 * 8192 + 5, ulimit=16, ddelay=2.0, faults=[(1, 'ufail', 4000)], src='grid!'))
+    add(sched(size=3 * 8192 + 5, ulimit=16, ddelay=2.0, faults=[(1, 'ufail', 4000), (1, 'hold_upfailed', 5.0)], src='grid!'))
+    add(sched(size=8193, faults=[(1, 'ufail', 0)], src='grid!'))
+    for size in (8193, 3 * 8192 + 5):
+        add(sched(size=size, ulimit=16, faults=[(1, 'ufail', size // 2), (1, 'hold_upfailed', 0.1)]))
+        add(sched(size=size, ulimit=4, faults=[(1, 'cut', 'reset', 'data', 1000), (1, 'hold_upfailed', 0.06),
+                                               (2, 'cut', 'reset', 'data', 1000), (2, 'hold_upfailed', 2.0)]))
     if thorough:
         for size in SIZES[1:]:
             for _ in range(6):
@@ -829,7 +886,7 @@ def behaviour_to_sched(beh, rng):
     b0 = min(k0, pos(int(st0['cnt'])))
     resume = str(st0['stD']) == 'INCOMPLETE'
     faults, script = [], []
-    attempt = nreq = nrep = 0
+    attempt = nreq = nrep = nuf = 0
     cur = None                 # scripted entry of the current attempt
     for i in range(1, len(beh)):
         pre, post = beh[i - 1][1], beh[i][1]
@@ -847,6 +904,12 @@ def behaviour_to_sched(beh, rng):
             o = int(post['fc']['off'])
             cur = ['ok' if o <= a else 'bad', pos(o), 'all']
             script.append(cur)
+        if sum(1 for m in post['chUD'] if m['t'] == 'upfailed') > sum(1 for m in pre['chUD'] if m['t'] == 'upfailed'):
+            nuf += 1
+        if lab == 'HoldUpFailed':
+            if mode == 'real2':
+                faults.append((nuf, 'hold_upfailed', rng.choice([0.06, 0.3, 1.0, 5.0])))
+            continue
         if int(post['faults']) == int(pre['faults']):
             continue
         if lab in ('LoseRequest', 'LoseReply') and mode != 'real2':
@@ -855,6 +918,9 @@ def behaviour_to_sched(beh, rng):
             faults.append((nreq, 'lose_request'))
         elif lab == 'LoseReply':
             faults.append((nrep, 'lose_reply'))
+        elif lab == 'BreakUSide':
+            if mode != 'scrU':       # the scripted uploader has its own way of failing (less_close)
+                faults.append((attempt, 'ufail', max(0, pos(int(pre['offU']) + int(pre['sentU'])) - pos(int(pre['offU'])))))
         elif lab == 'ScrUFailEarly':
             script.append(['fail_early'])
         elif lab == 'ScrUAbandon':
@@ -892,6 +958,8 @@ def behaviour_to_sched(beh, rng):
             seen.add((f[0], f[1]))
             fl.append(f)
     retry = not any(x[0] == 'more' for x in script)
+    if any(f[1] == 'hold_upfailed' for f in fl):
+        limited = True           # keep the next attempt running long enough for the late message to meet it
     return sched(mode=mode, size=size, k0=k0, b0=b0, resume=resume, ulimit=16 if limited else 0,
                  seg=rng.choice(['none', 'none', 'odd', 'half']), faults=fl, script=script, retry=retry, src='tlc')
 
@@ -1028,7 +1096,8 @@ def run(chk: Check, args):
     acts = ['DQueueRemotely', 'DRecvRequest', 'DRequeueOnRequest', 'DFileConnTimeout', 'DOffsetErr', 'DStartDownload',
             'DRecv', 'DSeeEof', 'DSeeReset', 'DDataTimeout', 'DTimedOut', 'DClose', 'DVerdict', 'DRecvUpFailed',
             'UserRetry', 'URecvQueue', 'UInitialize', 'URecvReply', 'UReplyTimeout', 'UOpenFileConn', 'URecvOffset',
-            'UOffsetFail', 'USend', 'USendDone', 'UVerdict', 'LoseRequest', 'LoseReply', 'ScrUFailEarly', 'ScrUAbandon',
+            'UOffsetFail', 'USend', 'USendDone', 'UVerdict', 'LoseRequest', 'LoseReply', 'BreakUSide', 'HoldUpFailed',
+            'ReleaseUpFailed', 'ScrUFailEarly', 'ScrUAbandon',
             'ScrUSendJunk', 'ScrUCloseEarly', 'ScrUStall', 'ScrUStallEnd', 'ScrDCloseEarly']
     r = tlc.model_check(SPEC, 'MC_quick.cfg', expect_actions=acts, timeout=1200)
     chk.add_model('FileTransfer sizes 0..3, chunk 2, F=1 (exhaustive, safety + liveness)', r)
@@ -1064,11 +1133,12 @@ def run(chk: Check, args):
     if not thorough:
         # quick: a seeded sample of the grid that keeps every class, plus the TLC-derived ones
         keep = [s for s in order if s['src'] == 'tlc']
+        always = [s for s in order if s['src'] == 'grid!']
         g = [s for s in order if s['src'] == 'grid']
         chk.rng.shuffle(g)
         must = [s for s in g if s['size'] in (0, 8193) or s['mode'] != 'real2' or s['resume'] or s['ulimit'] in (1, 2)]
         rest = [s for s in g if s not in must]
-        order = must[:190] + rest[:90] + keep[:90]
+        order = always + must[:180] + rest[:90] + keep[:90]
 
     # -- replay on the real code ----------------------------------------------------------
     root = tempfile.mkdtemp(prefix='c04-')
@@ -1133,7 +1203,7 @@ def replay(chk: Check, data: dict):
     if not s:
         raise MachineryFailure('no schedule in the replay file')
     s = sched(**{k: v for k, v in s.items() if k in ('mode', 'size', 'k0', 'b0', 'resume', 'ulimit', 'dlimit', 'seg',
-                                                     'fdelay', 'faults', 'script', 'retry', 'src')})
+                                                     'fdelay', 'ddelay', 'faults', 'script', 'retry', 'src')})
     root = tempfile.mkdtemp(prefix='c04-')
     try:
         ev, run_ = run_schedule(s, root)
